@@ -1,0 +1,103 @@
+//go:build verif
+
+package lsm
+
+import (
+	"errors"
+
+	"github.com/feichai0017/NoKV/kv"
+	"github.com/feichai0017/NoKV/utils"
+)
+
+// VerifSST is one SST file built or opened through the engine's own table
+// builder and table reader, owned by the verification harness. It carries a
+// private level manager that provides only what a table needs (options and the
+// index/block/bloom caches).
+type VerifSST struct {
+	lm *levelManager
+	t  *table
+}
+
+func verifSSTManager(opt *Options) *levelManager {
+	o := *opt
+	return &levelManager{opt: &o, cache: newCache(&o)}
+}
+
+// VerifBuildTable builds <WorkDir>/<fid>.sst from entries (sorted by internal
+// key, as flush and compaction feed the builder) and opens it.
+func VerifBuildTable(opt *Options, fid uint64, entries []*kv.Entry) (*VerifSST, error) {
+	lm := verifSSTManager(opt)
+	b := newTableBuiler(lm.opt)
+	for _, e := range entries {
+		b.AddKey(e)
+	}
+	t := openTable(lm, utils.FileNameSSTable(lm.opt.WorkDir, fid), b)
+	if t == nil {
+		return nil, errors.New("verif: openTable(builder) failed")
+	}
+	return &VerifSST{lm: lm, t: t}, nil
+}
+
+// VerifOpenTable opens an existing SST file with fresh caches.
+func VerifOpenTable(opt *Options, fid uint64) (*VerifSST, error) {
+	lm := verifSSTManager(opt)
+	t := openTable(lm, utils.FileNameSSTable(lm.opt.WorkDir, fid), nil)
+	if t == nil {
+		return nil, errors.New("verif: openTable failed")
+	}
+	return &VerifSST{lm: lm, t: t}, nil
+}
+
+// Search is table.Search as the read path calls it for a table consulted first.
+func (s *VerifSST) Search(key []byte) (*kv.Entry, error) {
+	var maxVs uint64
+	return s.t.Search(key, &maxVs)
+}
+
+// NewIterator returns the table iterator for the given direction.
+func (s *VerifSST) NewIterator(asc bool) utils.Iterator {
+	return s.t.NewIterator(&utils.Options{IsAsc: asc})
+}
+
+// BloomMayContain reports whether the table has a bloom filter and what it
+// answers for a user key (column-family prefixed, without timestamp).
+func (s *VerifSST) BloomMayContain(baseKey []byte) (has bool, may bool) {
+	idx := s.t.index()
+	if idx == nil || len(idx.BloomFilter) == 0 {
+		return false, true
+	}
+	return true, utils.Filter(idx.BloomFilter).MayContainKey(baseKey)
+}
+
+// Blocks returns the number of data blocks.
+func (s *VerifSST) Blocks() int {
+	if idx := s.t.index(); idx != nil {
+		return len(idx.GetOffsets())
+	}
+	return 0
+}
+
+// BlockBaseKeys returns the first internal key of every data block, in order.
+func (s *VerifSST) BlockBaseKeys() [][]byte {
+	idx := s.t.index()
+	if idx == nil {
+		return nil
+	}
+	out := make([][]byte, 0, len(idx.GetOffsets()))
+	for _, bo := range idx.GetOffsets() {
+		out = append(out, append([]byte(nil), bo.GetKey()...))
+	}
+	return out
+}
+
+// KeyCount, MinKey and MaxKey expose the table's metadata.
+func (s *VerifSST) KeyCount() uint32 { return s.t.KeyCount() }
+func (s *VerifSST) MinKey() []byte   { return s.t.MinKey() }
+func (s *VerifSST) MaxKey() []byte   { return s.t.MaxKey() }
+
+// Close releases the file handle and caches; the file stays on disk.
+func (s *VerifSST) Close() error {
+	err := s.t.closeHandle()
+	_ = s.lm.cache.close()
+	return err
+}
